@@ -126,10 +126,14 @@ def case_exp_log(H, g):
             for sign, tag in ((1, 'w>0'), (-1, 'w<0')):
                 case, lem = quat_log_lemmas(ctx, sign)
                 hy, lobs, _tab = H.chain('%s/path%d/%s' % (name, pn, tag), hyp + case, lem, replay=replay, key=key, timeout=2 * to)
+                rels, elim = quat_log_relations(ctx, sign)
                 for nm, l, r in pairs:
                     d = l - r
-                    H.prove('%s/path%d/%s/%s' % (name, pn, tag, nm), hy, l == r, replay=replay, key=key, timeout=2 * to, depends=lobs,
-                            strategies=('default', 'nlsat'), neg_margin=z3.Or(d > z3.RealVal('1/1000'), d < -z3.RealVal('1/1000')))
+                    if True:
+                        # a rational identity modulo the lemma conclusions (certificate; the lemma equalities eliminate the abstraction
+                        # variables of the half and full angle; without certificate the direct query is the fall-back)
+                        H.certify('%s/path%d/%s/%s' % (name, pn, tag, nm), l, r, rels, hyps=hy, depends=lobs, elim=elim, replay=replay, key=key,
+                                  timeout=3 * to)
                 H.reach('%s/path%d/%s/reach' % (name, pn, tag), hyp + case)
             continue
         for nm, l, r in pairs:
@@ -198,10 +202,10 @@ def case_log_exp(H, g):
 def run(H):
     H.assumptions += ['exact real arithmetic (the abstraction of transcendental functions is sound: unsat holds for the real functions)',
                       'valid group inputs; scale in [1/3000, 3000]; |sigma| <= 8']
-    H.bounds += ['single items', 'quick: SO3 family for all clauses, SE3/RxSO3 for Log basics; thorough: all four groups']
+    H.bounds += ['single items', 'quick: SO3 for all clauses, SE3/RxSO3 for Log basics and Exp(Log X); thorough: all four groups']
     only = getattr(H, 'only', None)
     groups_basic = ['SO3', 'SE3', 'RxSO3'] if H.quick else GROUPS
-    groups_deep = ['SO3'] if H.quick else GROUPS
+    groups_deep = ['SO3', 'SE3', 'RxSO3'] if H.quick else GROUPS
     for g in groups_basic:
         if only and only not in g:
             continue
@@ -213,7 +217,7 @@ def run(H):
     for g in groups_deep:
         if only and only not in g:
             continue
-        for f in (case_exp_log, case_log_exp):
+        for f in ((case_exp_log, case_log_exp) if (g == 'SO3' or not H.quick) else (case_exp_log,)):
             try:
                 f(H, g)
             except Exception as e:
